@@ -65,3 +65,19 @@ Example C08_two_blocked_workers :
   let s := frun (finit [[(JExit, UBlock true)]; [(JExit, UBlock true)]]) [LW 0; LW 1; LTo1 1; LTo2; LMain; LMain] in
   fmn s = FRaised (ETimeout 1).
 Proof. vm_compute. reflexivity. Qed.
+
+(* source fact (worker._run_init_func / _run_exit_func): each phase clears its own stamp, on both branches *)
+Theorem C08_init_exit_phases_bracketed : init_exit_phases_bracketed = true.
+Proof. exact phases_spec. Qed.
+Print Assumptions C08_init_exit_phases_bracketed.
+
+(* the init / exit timeout in force on kept-alive workers is the one of the most recent call: the handler reads the pool-side
+   copy of the map parameters, the workers stamp their phases according to their own copy, and after EVERY history of calls,
+   setters, apply tasks and shutdowns the two copies agree (history model; the statement that records new parameters on
+   the pool side when they are shipped to live workers is read off imap_unordered) *)
+From Mpv Require Import GenParams Hist HistProofs.
+Theorem C08_timeouts_in_force_are_the_last_calls :
+  new_params_shipped = true /\
+  forall l k h, let s := hstate (hinit l k) h in alive s = true -> p_params s = Some (w_params s).
+Proof. exact (conj new_params_shipped_spec pool_and_workers_agree). Qed.
+Print Assumptions C08_timeouts_in_force_are_the_last_calls.
